@@ -312,7 +312,7 @@ func (s *sys) applyPH(args []string) string {
 		ph.Signature = flipBit(ph.Signature)
 	case "nokey":
 		ph.ProposerPubKey = nil
-	case "badpcp", "shortpcp", "foreignpcp", "duppcp", "pcpnil3", "emptypcp", "pcpidN", "pcpidlen1":
+	case "badpcp", "shortpcp", "foreignpcp", "duppcp", "pcpnil3", "pcponlynil3", "emptypcp", "pcpidN", "pcpidlen1":
 		pcp := ph.Header.PrevCommitProof.Clone()
 		mh := string(ph.Header.PrevBlockHash)
 		switch variant {
@@ -336,6 +336,11 @@ func (s *sys) applyPH(args []string) string {
 			// nil precommit of that round (new to the node unless it was sent before).
 			if h > initialH {
 				pcp.Proofs[""] = []gcrypto.SparseSignature{w.voteSig('c', h-1, pcp.Round, "", byzIdx)}
+			}
+		case "pcponlynil3":
+			// One target only, and it is not the previous block: nothing at all for the block the header builds on.
+			if h > initialH {
+				pcp.Proofs = map[string][]gcrypto.SparseSignature{"": {w.voteSig('c', h-1, pcp.Round, "", byzIdx)}}
 			}
 		case "emptypcp":
 			pcp.Proofs = map[string][]gcrypto.SparseSignature{}
